@@ -1,5 +1,5 @@
 """C17 — emu-mps quantum-jump trajectories: noise plumbing (structural clauses)."""
-from ..rules import drivers, observables, adapter, jump, noise, step, tdvp
+from ..rules import drivers, observables, adapter, jump, noise, step, tdvp, mpoham
 
 META = {
     "title": "emu-mps quantum-jump trajectories reproduce Lindblad dynamics on average",
@@ -30,3 +30,4 @@ def check(ctx):
     drivers.create_impl_table(ctx)
     drivers.normalised_copies(ctx)
     drivers.jump_gap(ctx)
+    mpoham.local_term(ctx)
